@@ -1,3 +1,256 @@
-import Cutadapt.Stats
+import Cutadapt.Proofs.StepsShape
+import Cutadapt.Proofs.StepsPrefix
+import Cutadapt.Properties.C14
+/-! # C11 — filters use the documented criteria, in order, one destination per read
+
+Model: `Cutadapt.Pipeline` (`Pred.test`, `stepS`, `stepP`, `runStepsS/P`, `processReadS`), `Cutadapt.Assembly.makeSteps`.
+Helper lemmas: `Cutadapt/Proofs/StepsCore.lean`, `StepsMake.lean`, `StepsShape.lean`. -/
 namespace Cutadapt.C11
+open Cutadapt Cutadapt.Steps Cutadapt.Qualtrim
+
+/-! ## The fixed order -/
+
+/-- position of a step in the documented order: text-file writers 0; filters by their criterion — too short 1, too long 2,
+    too many N 3, expected errors 4, average error rate 5, CASAVA 6, trimmed/untrimmed 7; sink and demultiplexers 8 -/
+def stepRank : Step → Nat := Steps.stepRank
+
+example : stepRank (.filter (some (.tooManyN 0.5)) none .any none) = 3 := rfl
+example : stepRank (.filter none (some (.tooLong 7)) .any none) = 2 := rfl
+example : stepRank (.demux [] none) = 8 := rfl
+
+theorem count_rank_le_one {l : List Step} (h : l.Pairwise RankLt) (r : Nat) (hr : 1 ≤ r) :
+    (l.map Steps.stepRank).count r ≤ 1 := by
+  induction l with
+  | nil => simp
+  | cons a l ih =>
+    rw [List.pairwise_cons] at h
+    have := ih h.2
+    rw [List.map_cons, List.count_cons]
+    by_cases ha : Steps.stepRank a = r
+    · have hz : (l.map Steps.stepRank).count r = 0 := by
+        rw [List.count_eq_zero]
+        intro hm
+        obtain ⟨b, hb, hbr⟩ := List.mem_map.1 hm
+        rcases h.1 b hb with hlt | ⟨h0, -⟩ <;> omega
+      simp [ha, hz]
+    · have : (Steps.stepRank a == r) = false := by simpa using ha
+      simp [this]; omega
+
+/-- The steps that `make_pipeline_from_args` assembles are in the documented order, and no filter criterion (ranks 1–7)
+    nor the final step occurs twice. (`LenBounds`: a given `-m`/`-M` carries a bound that applies to the run.) -/
+theorem filter_order {o : Opts} {n1 n2 : List String} {steps : List Step} {f : Files}
+    (hb : LenBounds o) (h : makeSteps o n1 n2 = .ok (steps, f)) :
+    steps.Pairwise (fun a b => stepRank a ≤ stepRank b) ∧
+    ∀ r, 1 ≤ r → (steps.map stepRank).count r ≤ 1 := by
+  have hp := makeSteps_ranked hb h
+  refine ⟨hp.imp (fun {a b} hab => ?_), fun r hr => count_rank_le_one hp r hr⟩
+  rcases hab with hlt | ⟨h0, h1⟩
+  · exact Nat.le_of_lt hlt
+  · simp [stepRank, h0, h1]
+
+/-! ## The first filter that applies consumes the read -/
+
+/-- step `s` lets the read through unchanged, emitting `e` (a writer printing lines, or a filter whose criterion is false) -/
+def Passes (ads : List Matchable) (r : Read) (i : Info) (s : Step) (e : List Event) : Prop :=
+  s.isPass = true ∧ ∀ idx, stepS ads idx s r i = .ok (some r, e)
+
+/-- what passing means, step kind by step kind: writers emit only `text` events; a filter passes iff its criterion
+    evaluates to false, and then emits nothing -/
+theorem passes_iff (ads : List Matchable) (r : Read) (i : Info) :
+    (∀ s e, Passes ads r i s e → ∀ ev ∈ e, isText ev = true) ∧
+    (∀ p p2 mode w e, Passes ads r i (.filter (some p) p2 mode w) e ↔ p.test r i = .ok false ∧ e = []) := by
+  refine ⟨fun s e h ev hev => ?_, fun p p2 mode w e => ⟨fun h => ?_, fun h => ⟨rfl, fun idx => ?_⟩⟩⟩
+  · rcases stepS_pass h.1 (h.2 0) with ⟨-, ht⟩ | ⟨h1, -⟩
+    · exact ht ev hev
+    · simp at h1
+  · have := h.2 0
+    simp only [stepS] at this
+    split at this
+    · simp at this
+    · simp at this
+    · rename_i ht
+      simp only [Except.ok.injEq, Prod.mk.injEq, true_and] at this
+      exact ⟨ht, this.symm⟩
+  · simp [stepS, h.1, h.2]
+
+theorem runPrefixS_passes {ads : List Matchable} {r : Read} {i : Info} {pre : List Step} {es : List (List Event)}
+    (h : Forall2 (Passes ads r i) pre es) (idx : Nat) : runPrefixS ads pre idx r i = .ok (some r, es.flatten) := by
+  induction h generalizing idx with
+  | nil => rfl
+  | cons hs _ ih => simp [runPrefixS, hs.2 idx, ih (idx + 1)]
+
+/-- **Single-end.** In `pre ++ [filter] ++ post`, when every step of `pre` lets the read through and the filter's criterion
+    holds: the log gets exactly what the steps of `pre` printed, then `filtered k` for the filter's index `k`, then the
+    write to the filter's redirect file iff there is one — and nothing from `post`. -/
+theorem first_applicable_consumes {ads : List Matchable} {r : Read} {i : Info} {pre post : List Step}
+    {es : List (List Event)} {p : Pred} {p2 : Option Pred} {mode : PairMode} {w : Option Nat} (idx : Nat)
+    (evs0 : List Event) (hpre : Forall2 (Passes ads r i) pre es) (hp : p.test r i = .ok true) :
+    runStepsS ads (pre ++ [.filter (some p) p2 mode w] ++ post) idx r i evs0 =
+      .ok (evs0 ++ es.flatten ++ .filtered (idx + pre.length) ::
+        (match w with | some w => [Event.write w r none] | none => [])) := by
+  rw [List.append_assoc, runStepsS_append, runPrefixS_passes hpre]
+  simp only [List.singleton_append, runStepsS, stepS, hp]
+  cases w <;> simp
+
+/-- if no filter applies, the read reaches the last step, which sees the same read and index -/
+theorem no_filter_applies_reaches_last {ads : List Matchable} {r : Read} {i : Info} {pre : List Step} {last : Step}
+    {es : List (List Event)} (idx : Nat) (evs0 : List Event) (hpre : Forall2 (Passes ads r i) pre es) :
+    runStepsS ads (pre ++ [last]) idx r i evs0 =
+      match stepS ads (idx + pre.length) last r i with
+      | .error e => .error e
+      | .ok (none, e) => .ok (evs0 ++ es.flatten ++ e)
+      | .ok (some _, e) => .ok (evs0 ++ es.flatten ++ e) := by
+  rw [runStepsS_append, runPrefixS_passes hpre]
+  simp only [runStepsS]
+  split <;> simp_all
+
+/-- paired-end: step `s` lets the pair through unchanged -/
+def PassesP (a1 a2 : List Matchable) (r : Read × Read) (i : Info × Info) (s : Step) (e : List Event) : Prop :=
+  s.isPass = true ∧ ∀ idx, stepP a1 a2 idx s r i = .ok (some r, e)
+
+theorem passesP_iff (a1 a2 : List Matchable) (r1 r2 : Read) (i1 i2 : Info) :
+    (∀ s e, PassesP a1 a2 (r1, r2) (i1, i2) s e → ∀ ev ∈ e, isText ev = true) ∧
+    (∀ p1 p2 mode w e, PassesP a1 a2 (r1, r2) (i1, i2) (.filter p1 p2 mode w) e ↔
+      pairFiltered p1 p2 mode r1 r2 i1 i2 = .ok false ∧ e = []) := by
+  refine ⟨fun s e h ev hev => ?_, fun p1 p2 mode w e => ⟨fun h => ?_, fun h => ⟨rfl, fun idx => ?_⟩⟩⟩
+  · rcases stepP_pass h.1 (h.2 0) with ⟨-, ht⟩ | ⟨h1, -⟩
+    · exact ht ev hev
+    · simp at h1
+  · have := h.2 0
+    simp only [stepP] at this
+    split at this
+    · simp at this
+    · simp at this
+    · rename_i ht
+      simp only [Except.ok.injEq, Prod.mk.injEq, true_and] at this
+      exact ⟨ht, this.symm⟩
+  · simp [stepP, h.1, h.2]
+
+theorem runPrefixP_passes {a1 a2 : List Matchable} {r : Read × Read} {i : Info × Info} {pre : List Step}
+    {es : List (List Event)} (h : Forall2 (PassesP a1 a2 r i) pre es) (idx : Nat) :
+    runPrefixP a1 a2 pre idx r i = .ok (some r, es.flatten) := by
+  induction h generalizing idx with
+  | nil => rfl
+  | cons hs _ ih => simp [runPrefixP, hs.2 idx, ih (idx + 1)]
+
+/-- **Paired-end.** The same with the pair decision `pairFiltered`: the pair is consumed as a unit, the redirect file
+    receives both mates. -/
+theorem first_applicable_consumes_paired {a1 a2 : List Matchable} {r1 r2 : Read} {i1 i2 : Info} {pre post : List Step}
+    {es : List (List Event)} {p1 p2 : Option Pred} {mode : PairMode} {w : Option Nat} (idx : Nat) (evs0 : List Event)
+    (hpre : Forall2 (PassesP a1 a2 (r1, r2) (i1, i2)) pre es)
+    (hp : pairFiltered p1 p2 mode r1 r2 i1 i2 = .ok true) :
+    runStepsP a1 a2 (pre ++ [.filter p1 p2 mode w] ++ post) idx (r1, r2) (i1, i2) evs0 =
+      .ok (evs0 ++ es.flatten ++ .filtered (idx + pre.length) ::
+        (match w with | some w => [Event.write w r1 (some r2)] | none => [])) := by
+  rw [List.append_assoc, runStepsP_append, runPrefixP_passes hpre]
+  simp only [List.singleton_append, runStepsP, stepP, hp]
+  cases w <;> simp
+
+/-- `-m 3 --too-short-output`, then `-M 3`: a read of length 4 passes the first filter and is consumed by the second;
+    the sink does not see it -/
+example : runStepsS [] [.filter (some (.tooShort 3)) none .any (some 0), .filter (some (.tooLong 3)) none .any none, .sink 1] 0
+    ⟨[114], [65, 67, 71, 84], none⟩ { original := ⟨[114], [65, 67, 71, 84], none⟩ } [] = .ok [.filtered 1] := rfl
+
+/-! ## Filters see the fully modified read -/
+
+/-- all modifiers run before the first step: the steps receive the read and the match information that `runModsS` returns -/
+theorem filters_see_modified_read (p : SinglePipeline) (read : Read) :
+    processReadS p read =
+      match runModsS (namesOf p.ads) p.mods read { original := read } [Event.input read.len none] with
+      | .error e => .error e
+      | .ok (r, i, evs) => runStepsS p.ads p.steps 0 r i evs := rfl
+
+theorem filters_see_modified_pair (p : PairedPipeline) (pr : Read × Read) :
+    processReadP p pr =
+      match runModsP p.ads1 p.ads2 p.mods pr ({ original := pr.1 }, { original := pr.2 })
+          [Event.input pr.1.len (some pr.2.len)] with
+      | .error e => .error e
+      | .ok (r, i, evs) => runStepsP p.ads1 p.ads2 p.steps 0 r i evs := rfl
+
+/-- and the modifiers are applied one after the other, each to the result of the previous one -/
+theorem mods_in_sequence (names : Names) (m : SMod) (ms : List SMod) (r : Read) (i : Info) (evs : List Event) :
+    runModsS names (m :: ms) r i evs =
+      match applyS names 0 m r i with
+      | .error e => .error e
+      | .ok (r', i', e') => runModsS names ms r' i' (evs ++ e') := rfl
+
+/-! ## The criteria -/
+
+/-- `-m`: strictly shorter than the bound; `-M`: strictly longer -/
+theorem criteria_length (n : Int) (r : Read) (i : Info) :
+    (Pred.tooShort n).test r i = .ok (decide ((r.len : Int) < n)) ∧
+    (Pred.tooLong n).test r i = .ok (decide ((r.len : Int) > n)) := ⟨rfl, rfl⟩
+
+/-- `--max-n`: a cutoff below 1 is a fraction of the read length (an empty read is never filtered), otherwise an
+    absolute count; the count includes `N` and `n` -/
+theorem criteria_max_n (c : Float) (r : Read) (i : Info) :
+    (Pred.tooManyN c).test r i =
+      (if c < 1.0 then
+        (if r.len = 0 then .ok false
+         else .ok (decide (Float.ofNat (nCountBoth r.seq) / Float.ofNat r.len > c)))
+       else .ok (decide (Float.ofNat (nCountBoth r.seq) > c))) ∧
+    nCountBoth r.seq = r.seq.count 78 + r.seq.count 110 := by
+  refine ⟨?_, C14.nCount_spec r.seq⟩
+  simp only [Pred.test]
+  split
+  · by_cases h : r.len = 0 <;> simp [h]
+  · rfl
+
+/-- `--max-ee`: expected errors (computed from the qualities with base 33) strictly above the bound -/
+theorem criteria_max_ee (e : Float) (r : Read) (i : Info) (q : Bytes) (v : Float) (hq : r.qual = some q)
+    (hv : ExpErr.expectedErrors 33 q = some v) : (Pred.maxEE e).test r i = .ok (decide (v > e)) := by
+  simp [Pred.test, hq, hv]
+
+/-- `--max-aer`: expected errors per base strictly above the bound; an empty read is never filtered -/
+theorem criteria_max_aer (rate : Float) (r : Read) (i : Info) :
+    (r.len = 0 → (Pred.maxAER rate).test r i = .ok false) ∧
+    (∀ q v, r.len ≠ 0 → r.qual = some q → ExpErr.expectedErrors 33 q = some v →
+      (Pred.maxAER rate).test r i = .ok (decide (v / Float.ofNat r.len > rate))) := by
+  refine ⟨fun h => by simp [Pred.test, h], fun q v h hq hv => by simp [Pred.test, h, hq, hv]⟩
+
+/-- both raise `ValueError` on reads without (valid) qualities -/
+theorem criteria_ee_errors (e : Float) (r : Read) (i : Info) :
+    (r.qual = none → (Pred.maxEE e).test r i = .error .value) ∧
+    (∀ q, r.qual = some q → ExpErr.expectedErrors 33 q = none → (Pred.maxEE e).test r i = .error .value) := by
+  refine ⟨fun h => by simp [Pred.test, h], fun q hq hv => by simp [Pred.test, hq, hv]⟩
+
+/-- `--discard-casava`: the header part after the first space has `:Y:` at positions 1..3 -/
+theorem criteria_casava (r : Read) (i : Info) :
+    Pred.casava.test r i = .ok (casavaFiltered r.name) ∧
+    (casavaFiltered r.name = true ↔ seg ((r.name.dropWhile (· != 32)).drop 1) 1 4 = [58, 89, 58]) := by
+  refine ⟨rfl, ?_⟩
+  simp [casavaFiltered]
+
+theorem dropWhile_ne_space (a b : Bytes) (h : (32 : UInt8) ∉ a) : (a ++ 32 :: b).dropWhile (· != 32) = 32 :: b := by
+  induction a with
+  | nil => simp
+  | cons c a ih =>
+    have hc : c ≠ 32 := fun e => h (by simp [e])
+    have : (c != 32) = true := by simpa using hc
+    simp only [List.cons_append, List.dropWhile_cons, this, if_true]
+    exact ih (fun hm => h (by simp [hm]))
+
+/-- in terms of `str.partition(" ")`: for a name `id ++ " " ++ comment` with no space in `id`, the comment decides;
+    a name without a space is never filtered -/
+theorem casava_partition (a b : Bytes) (h : (32 : UInt8) ∉ a) :
+    casavaFiltered (a ++ 32 :: b) = (seg b 1 4 == [58, 89, 58]) ∧ casavaFiltered a = false := by
+  refine ⟨by simp [casavaFiltered, dropWhile_ne_space a b h], ?_⟩
+  have : a.dropWhile (· != 32) = [] := by
+    induction a with
+    | nil => rfl
+    | cons c a ih =>
+      have hc : c ≠ 32 := fun e => h (by simp [e])
+      have hb : (c != 32) = true := by simpa using hc
+      simp only [List.dropWhile_cons, hb, if_true]
+      exact ih (fun hm => h (by simp [hm]))
+  simp [casavaFiltered, this, seg]
+
+/-- "r 1:Y:18:ATCACG" is filtered, "r 1:N:18:ATCACG" is not -/
+example : casavaFiltered [114, 32, 49, 58, 89, 58, 49, 56] = true := by decide
+example : casavaFiltered [114, 32, 49, 58, 78, 58, 49, 56] = false := by decide
+
+/-- `--discard-trimmed` / `--discard-untrimmed`: an adapter match was / was not recorded by the modifiers -/
+theorem criteria_trimmed (r : Read) (i : Info) :
+    (Pred.isTrimmed.test r i = .ok true ↔ i.mts ≠ []) ∧ (Pred.isUntrimmed.test r i = .ok true ↔ i.mts = []) := by
+  constructor <;> cases h : i.mts <;> simp [Pred.test, h]
 end Cutadapt.C11
